@@ -157,6 +157,20 @@ Fixpoint mrun (cfg : mconfig) (st : mstate) (ops : list mop) : mstate * list mre
       (st2, match o with Some r => r :: rs | None => rs end)
   end.
 
+(* Does the operation address the cell of _learned_patterns whose key is the
+   pattern text k?  The dict is keyed by the text as written: a learn / import
+   of a signature with exactly that text overwrites the cell, forget_threat of
+   exactly that text deletes it; a text that differs in any way (letter case,
+   the case of a regex escape class such as \s / \S, surrounding blanks) is
+   another cell.  learn_threat does nothing unless enable_adaptive. *)
+Definition names_key (cfg : mconfig) (k : list Z) (op : mop) : bool :=
+  match op with
+  | OLearn g => c_adaptive cfg && zl_eq (s_key g) k
+  | OForget k' => zl_eq k' k
+  | OImport l => existsb (fun g => zl_eq (s_key g) k) l
+  | _ => false
+  end.
+
 (* ---- a colony: several membranes, antibody transfer ------------------------ *)
 
 (* Each Membrane object owns its state; export_antibodies() returns the values
